@@ -210,6 +210,54 @@ func runC12(c C12Case) (st Stats, err error) {
 			v = violf("Defrag", "after Defrag Unmarshal differs: %v\n  tree %s", e, c.Root.Brief())
 			return
 		}
+		// a pointer held as a Condition's expression converts to whatever it points to NOW: the pointee of every
+		// pointer-to-alias expression in the aliased tree is re-assigned, and the Condition must follow
+		var repoint func(x any, n Node) *Violation
+		repoint = func(x any, n Node) *Violation {
+			if s, ok := unwrapStack(x); ok {
+				for i := 0; i < s.Len() && i < len(n.Elems); i++ {
+					e, _ := s.Index(i)
+					if vv := repoint(e, n.Elems[i]); vv != nil {
+						return vv
+					}
+				}
+				return nil
+			}
+			cd, ok := unwrapCond(x)
+			if !ok || !n.IsCond() || n.Expr == nil || n.ReadOnly || n.NoNest || !condValid(n) && n.Expr == nil {
+				return nil
+			}
+			ex := cd.Expression()
+			if n.Expr.IsStack() && (n.Expr.Wrap == WrapPtr || n.Expr.Wrap == WrapPtrNS || n.Expr.Wrap == WrapPtrLoud) {
+				switch ex.(type) {
+				case *MyStack, *MyStackS, *MyStackLoud:
+				default:
+					return violf("pointer-expression/replaced", "a Condition was given a pointer to a Stack alias as its expression but holds %T: it can no longer follow the pointee", ex)
+				}
+			}
+			fresh := stackage.Or().Push("pp", "qq", "rr")
+			switch p := ex.(type) {
+			case *MyStack:
+				*p = MyStack(fresh)
+			case *MyStackS:
+				*p = MyStackS(fresh)
+			case *MyStackLoud:
+				*p = MyStackLoud(fresh)
+			default:
+				return repoint(ex, *n.Expr)
+			}
+			st.Class("pointer-expression-repointed")
+			got, okc := stackage.ConvertStack(cd.Expression())
+			if !okc || got != fresh || cd.Len() != 3 || !cd.IsNesting() {
+				return violf("pointer-expression/stale", "after the pointee of a pointer-to-alias expression was re-assigned the Condition does not follow: ConvertStack(Expression())=(%s,%v) want the new stack %s; Len()=%d want 3", identOf(got), okc, identOf(fresh), cd.Len())
+			}
+			return nil
+		}
+		// (on a third, fresh build: nothing above or below is disturbed, and positions still match the description)
+		if vv := repoint(BuildStack(c.Root), c.Root); vv != nil {
+			v = vv
+			return
+		}
 	})
 	if p != "" {
 		return st, violf("alias/panic", "panicked: %s\n  tree %s", p, c.Root.Brief())
